@@ -9,11 +9,13 @@ package proxy
 // the shared target, and what simultaneous requests do to that is property C06's subject.
 
 import (
+	"bufio"
 	"errors"
 	"fmt"
 	"net"
 	"net/url"
 	"strings"
+	"sync"
 	"testing"
 
 	"github.com/fabiolb/fabio/internal/verifx"
@@ -163,14 +165,41 @@ func c13History(w *cvxWorld, j *cvxJob) bool {
 		w.errorf("case %d: history of %d requests with %d expected answers", j.id, len(cs.C.Hist), len(cs.Answers))
 		return false
 	}
+	var wg sync.WaitGroup
+	start := make(chan struct{})
 	for k, rq := range cs.C.Hist {
 		step := *cs
 		step.C.Hist, step.Answers = nil, nil
 		step.C.Path, step.C.Query, step.C.HostLabel = rq.Path, rq.Query, rq.Host
 		step.Out.Loc = cs.Answers[k]
 		step.parent, step.step = cs, k+1
-		c13Exec(w, &cvxJob{cs: &step, id: j.id + int64(k+1)<<34, raw: j.raw})
+		job := &cvxJob{cs: &step, id: j.id + int64(k+1)<<34, raw: j.raw}
+		if !cs.C.Together {
+			c13Exec(w, job)
+			continue
+		}
+		// all at once, over connections opened beforehand, at a proxy of their own that has answered no redirect yet
+		conn, err := w.cvxOpenConn(&step)
+		if err != nil {
+			w.errorf("case %d: %v", j.id, err)
+			continue
+		}
+		job.do = func() (*cvxGot, int64, error) {
+			defer conn.Close()
+			g, err := cvxRawGet(conn, bufio.NewReader(conn), job.cs, job.id)
+			return g, job.id, err
+		}
+		wg.Add(1)
+		go func() {
+			defer wg.Done()
+			<-start
+			if p, stack := verifx.Safely(func() { c13Exec(w, job) }); p != nil {
+				verifx.Fail(cs, map[string]any{"clause": "panic", "sub": cs.C.Sub}, "panic: %v\n%s", p, stack)
+			}
+		}()
 	}
+	close(start)
+	wg.Wait()
 	return true
 }
 
@@ -220,7 +249,9 @@ func c13Exec(w *cvxWorld, j *cvxJob) bool {
 	var got *cvxGot
 	var rid int64
 	var err error
-	if cs.C.Kind == "ws" || cs.C.Kind == "Ws" {
+	if j.do != nil {
+		got, rid, err = j.do()
+	} else if cs.C.Kind == "ws" || cs.C.Kind == "Ws" {
 		got, rid, err = w.doWS(cs, j.id)
 	} else {
 		got, rid, err = w.doHTTP(cs, j.id)
@@ -321,4 +352,10 @@ func c13Exec(w *cvxWorld, j *cvxJob) bool {
 func TestVerifC13(t *testing.T) {
 	(&cvxRunner{prop: "C13", exec: c13Exec, sample: c13Describe,
 		serial: func(cs *cvxCase) string { return cvxRouteKey(cs.C.Routes) }}).run(t)
+}
+
+// TestVerifC13Burst is TestVerifC13 under another name: the check runs the cases with simultaneous requests a
+// second time with the race detector.
+func TestVerifC13Burst(t *testing.T) {
+	TestVerifC13(t)
 }
